@@ -7,7 +7,8 @@ From Coq Require Import List ZArith QArith Bool Lia Permutation.
 From DD Require Import Model.Circuit Model.Query Model.Enumerate
      Proofs.PassLemmas Proofs.Enum Proofs.Semantics Proofs.CountsA
      Proofs.C07Defs Proofs.C07Valid Proofs.C07Urs Proofs.C07IdealDefs Proofs.C07Uniform Proofs.C07Align
-     Proofs.C07GeneralDefs Proofs.C07GeneralDist.
+     Proofs.QueryDefs Proofs.ExecTemps Proofs.C07Final
+     Proofs.C07GeneralDefs Proofs.C07GeneralDist Proofs.C07GeneralAlign Proofs.C07GeneralUniform Proofs.C07GeneralFinal.
 Import ListNotations.
 Open Scope Z_scope.
 
@@ -228,4 +229,40 @@ Proof.
   - rewrite (Hts i Hi ltac:(congruence)), (countsA_unfold A C i 0 Hok Hi), E. cbn [countA_node].
     f_equal. apply map_ext_in. exact Hc.
   - intros c Hc'. rewrite (Hc c Hc'). apply (countsA_bounds A C Hok). specialize (Hch c Hc'). lia.
+Qed.
+
+(* the temps uniform_random_sampling hands to sample_node are the counts under A *)
+Lemma urs_temps_ok C n A s :
+  WFQ C n -> in_range n A -> Clean C s -> 0 < MCA C n A ->
+  temps_ok A C (urs_temps (build C n) A s).
+Proof.
+  intros HQ HA Hcl Hsat. pose proof (exec_ok_holds C n A s HQ HA Hcl Hsat) as Hexec.
+  unfold urs_temps. destruct (preprocess (build C n) A s) as [s1|] eqn:Ep.
+  - now destruct (Hexec s1 Ep).
+  - exfalso. apply (in_range_not_out n A HA). now apply (preprocess_none C n A s).
+Qed.
+
+(* the final form for the multinomial law: no hypothesis on the split law is left *)
+Theorem urs_uniform_marginal_multi C n A s :
+  WFQ C n -> (0 < n)%nat -> in_range n A -> Clean C s ->
+  (forall i cs c, (i < length C)%nat -> nth i C FalseN = Or cs -> In c cs -> nth c C FalseN <> TrueN) ->
+  0 < MCA C n A ->
+  forall k, 1 <= k ->
+  let SL := SL_multi C (urs_temps (build C n) A s) in
+  (total (urs_stream_law (build C n) A SL k s) == 1)%Q /\
+  (forall chs w, In (chs, w) (urs_stream_law (build C n) A SL k s) ->
+     (0 <= w)%Q /\
+     urs_choices_okb (build C n) A k chs s = true /\
+     snd (uniform_random_sampling (build C n) A k chs s) = true /\
+     exists L, snd (fst (uniform_random_sampling (build C n) A k chs s)) = Some L /\
+               length L = Z.to_nat k) /\
+  forall j, (j < Z.to_nat k)%nat -> forall m,
+    (In m (ModelsA C n A) ->
+     (mass (urs_marginal (build C n) A SL k s j) m == 1 / inject_Z (MCA C n A))%Q) /\
+    (~ In m (ModelsA C n A) -> (mass (urs_marginal (build C n) A SL k s j) m == 0)%Q).
+Proof.
+  intros HQ Hn HA Hcl Hnt Hsat k Hk SL.
+  apply (urs_uniform_marginal C n A s SL HQ Hn HA Hcl Hnt Hsat); [|exact Hk].
+  apply (SL_multi_ideal C A); [apply (wf_idx C n (wfq_wf C n HQ))| |exact Hnt].
+  now apply urs_temps_ok.
 Qed.
